@@ -83,7 +83,7 @@ class PlainDate:
         return f"PlainDate({self._d})"
 
 
-DATE_KINDS = ("date", "date", "datetime", "M8D", "M8h", "M8s", "M8ns", "plain")
+DATE_KINDS = ("date", "date", "datetime", "datetime_tz", "M8D", "M8h", "M8s", "M8ns", "plain")
 
 
 def present(dates, kind):
@@ -93,6 +93,12 @@ def present(dates, kind):
         return dates
     if kind == "datetime":
         return np.array([datetime.datetime(d.year, d.month, d.day, 12 if i % 2 else 0, 30 if i % 3 else 0) for i, d in enumerate(dates)], dtype=object)
+    if kind == "datetime_tz":
+        # timezone-aware stamps: local midnight east of UTC / late evening west of UTC (the calendar day is the LOCAL date)
+        east = datetime.timezone(datetime.timedelta(hours=2))
+        west = datetime.timezone(datetime.timedelta(hours=-5))
+        return np.array([datetime.datetime(d.year, d.month, d.day, 0, 0, tzinfo=east) if i % 2 == 0
+                         else datetime.datetime(d.year, d.month, d.day, 23, 0, tzinfo=west) for i, d in enumerate(dates)], dtype=object)
     if kind == "plain":
         return np.array([PlainDate(d.year, d.month, d.day) for d in dates], dtype=object)
     unit = kind[2:]
@@ -100,6 +106,24 @@ def present(dates, kind):
     if unit != "D":
         a = a + np.timedelta64(13, "h").astype(f"timedelta64[{unit}]")  # 13:00, so that truncation to the day matters
     return a
+
+
+def storage_perm(rng, n):
+    """a storage order for a series of n steps: chronological, reversed, shuffled, or interior blocks swapped with the
+    first and the last step left in place (so the end points still look like a consecutive daily axis)"""
+    kind = rng.choice(["none", "none", "reverse", "shuffle", "inner-blocks"])
+    idx = list(range(n))
+    if n < 4 or kind == "none":
+        return "none", np.array(idx, dtype=int)
+    if kind == "reverse":
+        return kind, np.array(idx[::-1], dtype=int)
+    if kind == "shuffle":
+        rng.shuffle(idx)
+        return kind, np.array(idx, dtype=int)
+    a = rng.randint(1, n - 3)
+    b = rng.randint(a + 1, n - 2)
+    c = rng.randint(b, n - 2)
+    return kind, np.array(idx[:a] + idx[b:c + 1] + idx[a:b] + idx[c + 1:], dtype=int)
 
 
 def pick_kind(rng):
@@ -306,11 +330,20 @@ def skeleton_cases(rng, n, tier, res, problems):
     ProbeRW, ProbeDC, ProbeISIMIP, ProbeCDFt, ProbeQDM = classes()
     lines, expect = [], []
     maxn = 500 if tier == "quick" else 900
+    kind_count = {}
     for k in range(n):
         kind = ["rw", "dc", "isimip_rw", "isimip_months", "cdft_years", "qdm_years"][k % 6]
         dO, dH, dF = small_span(rng, maxn), small_span(rng, maxn), small_span(rng, maxn)
         S = rng.choice([1, 3, 5, 9, 31, rng.randint(1, 60)])
-        if k % 12 < 9 and kind in ("rw", "dc", "isimip_rw"):
+        shape_draw, order_draw = rng.random(), rng.random()
+        forced_which = None
+        nth = kind_count[kind] = kind_count.get(kind, 0) + 1
+        if kind in ("rw", "dc", "isimip_rw") and nth <= 4:
+            # the first occurrences of each loop are scheduled, not left to chance: turn of the year, then aligned calendars
+            # (cm_hist/cm_future, obs/cm_hist, all three), chronological storage
+            shape_draw, order_draw = (0.0, 1.0) if nth == 1 else (0.5, 1.0)
+            forced_which = {2: "HF", 3: "OH" if kind != "dc" else "OF", 4: "OHF"}.get(nth)
+        if shape_draw < 0.45 and kind in ("rw", "dc", "isimip_rw"):
             # deliberately: the corrected series runs over a turn of the year (both ends of the day-of-year range present,
             # first / last windows next to each other circularly) with a step > 1
             yy = rng.randint(1960, 2080)
@@ -322,12 +355,33 @@ def skeleton_cases(rng, n, tier, res, problems):
                 dF = dX
             S = rng.choice([5, 9, 15, 31, 7, 13])
         L = S + rng.choice([0, 0, 2, rng.randint(0, 40)])
+        if 0.45 <= shape_draw < 0.85 and kind in ("rw", "dc", "isimip_rw"):
+            # deliberately: two (or all three) series of EQUAL length starting on the same calendar day of different years,
+            # so that their leap days sit at different positions (index sets must not be shared between series)
+            nn = rng.randint(1500, 2000)  # more than four years: the day-of-year axes of the aligned series really differ (a 31 Dec of a leap year)
+            y1 = rng.choice([1981, 1979, 2051, 1997])
+            y2 = y1 + rng.choice([1, 2, 3, 70])
+            m0, d0 = rng.randint(1, 12), rng.randint(1, 28)
+            which = rng.choice(["HF", "HF", "OH", "OF", "OHF", "OHF"])
+            which = forced_which or which
+            if "O" in which:
+                dO = dates_from(datetime.date(y1, m0, d0), nn)
+            if "H" in which:
+                dH = dates_from(datetime.date(y2 if "O" in which else y1, m0, d0), nn)
+            if "F" in which:
+                dF = dates_from(datetime.date(y2 + 1 if which == "OHF" else y2, m0, d0), nn)
+        # storage order: the time steps of a series need not be stored chronologically
+        orders = []
+        if order_draw < 0.34:
+            (kO, pO), (kH, pH), (kF, pF) = storage_perm(rng, dO.size), storage_perm(rng, dH.size), storage_perm(rng, dF.size)
+            dO, dH, dF = dO[pO], dH[pH], dF[pF]
+            orders = [kO, kH, kF]
         nprs = np.random.RandomState(rng.randint(0, 2**31 - 1))
         o = nprs.randint(-9, 10, dO.size).astype(float)
         h = nprs.randint(-9, 10, dH.size).astype(float)
         f = nprs.randint(-9, 10, dF.size).astype(float)
         enc = pick_kind(rng)
-        case = {"kind": "skeleton-" + kind, "L": L, "S": S, "startF": str(dF[0]), "nF": int(dF.size), "nO": int(dO.size), "nH": int(dH.size), "time_encoding": enc}
+        case = {"kind": "skeleton-" + kind, "L": L, "S": S, "startF": str(dF[0]), "nF": int(dF.size), "nO": int(dO.size), "nH": int(dH.size), "time_encoding": enc, "storage_order": orders}
         rawO, rawH, rawF = dO, dH, dF
         if kind not in ("cdft_years", "qdm_years"):
             # the same days in one of the time encodings the library accepts; the calendar is checked independently
@@ -366,6 +420,9 @@ def skeleton_cases(rng, n, tier, res, problems):
             start = datetime.date(rng.randint(1960, 2080), rng.randint(1, 12), rng.randint(1, 28))
             # spread over years: take every ~10th day
             dF = dates_from(start, 366 * yrs)[:: rng.randint(5, 23)]
+            kF, pF = storage_perm(rng, dF.size) if order_draw < 0.5 else ("none", np.arange(dF.size))
+            dF = dF[pF]
+            case["storage_order"] = [kF]
             f = nprs.randint(-9, 10, dF.size).astype(float)
             case.update({"YL": YL, "YS": YS, "nF": int(dF.size), "startF": str(dF[0])})
             rawF = dF
